@@ -29,7 +29,7 @@ import (
 // entry) and leaves the codec's length bound at its default of 10240 bytes.
 //
 //verif:contract ~/pkg/msg.init#1
-//verif:props C17
+//verif:props C17 C03
 func verif_init() {
 	verif.ResetEvents()
 	verif.CallTarget()
